@@ -30,10 +30,11 @@ def _env(alphabet=0):
     from periodictable import formula, constants
     H, O, D, Fe, Cl, T, C = pt.H, pt.O, pt.D, pt.Fe, pt.Cl, pt.T, pt.C
     if alphabet == 0:
-        atoms = dict(H=H, O=O, D=D, O18=O[18], Fe2=Fe.ion[2], Fe56_3=Fe[56].ion[3], Clm=Cl.ion[-1])
+        atoms = dict(H=H, O=O, D=D, O18=O[18], Fe2=Fe.ion[2], Fe56_3=Fe[56].ion[3], Clm=Cl.ion[-1],
+                     Fe3=Fe.ion[3])        # Fe2/Fe3 differ only in charge, Fe3/Fe56_3 only in isotope
     else:
         atoms = dict(H=T, O=C[13], D=H[1], O18=O[16].ion[-2], Fe2=Fe[54].ion[2], Fe56_3=Fe.ion[3],
-                     Clm=D.ion[1])
+                     Clm=D.ion[1], Fe3=Fe[54].ion[3])
     return pt, formula, constants, atoms
 
 
@@ -70,11 +71,15 @@ class Bases(object):
                 {a["Fe2"]: 1, a["Clm"]: 2})
             add("str:Fe56", "formula('Fe[56]{3+}O[18]1.5')", lambda: formula("Fe[56]{3+}O[18]1.5"),
                 {a["Fe56_3"]: 1, a["O18"]: F(3, 2)})
+            add("str:magnetite", "formula('Fe{2+}Fe{3+}2O4')", lambda: formula("Fe{2+}Fe{3+}2O4"),
+                {a["Fe2"]: 1, a["Fe3"]: 2, a["O"]: 4})
             add("str:nested", "formula('Fe{2+}2((OH)2(H2O)0.5)3')",
                 lambda: formula("Fe{2+}2((OH)2(H2O)0.5)3"),
                 {a["Fe2"]: 2, a["O"]: F(15, 2), a["H"]: 9})
         add("dict:2", "formula({%s: 2, %s: 1})" % (self._pyname(a["H"]), self._pyname(a["O"])),
             lambda: formula({a["H"]: 2, a["O"]: 1}), {a["H"]: 2, a["O"]: 1})
+        add("dict:charges", "formula({%s: 1, %s: 2, %s: 4})" % (self._pyname(a["Fe2"]), self._pyname(a["Fe3"]), self._pyname(a["O"])),
+            lambda: formula({a["Fe2"]: 1, a["Fe3"]: 2, a["O"]: 4}), {a["Fe2"]: 1, a["Fe3"]: 2, a["O"]: 4})
         add("dict:half", "formula({%s: 0.5})" % self._pyname(a["D"]),
             lambda: formula({a["D"]: 0.5}), {a["D"]: F(1, 2)})
         add("list:nested", "formula([(1, %s), (2, [(1, %s), (1, %s)])])"
